@@ -14,6 +14,12 @@ import sys
 ROOT = os.path.dirname(os.path.dirname(os.path.abspath(__file__)))
 
 
+try:
+    HISTORY = json.load(open(os.path.join(ROOT, "seeded", "strengthening-history.json")))
+except Exception:
+    HISTORY = {}
+
+
 def main():
     res = json.load(open(sys.argv[1]))
     sid = sys.argv[2]
@@ -27,6 +33,11 @@ def main():
     os.makedirs(d, exist_ok=True)
     shutil.copy(res["patch"], os.path.join(d, "patch.diff"))
     shutil.copy(res["demo"], os.path.join(d, "demo.py"))
+    # helper modules shipped next to the demonstration (fake solver, common code)
+    dd = res.get("demo_dir") or os.path.dirname(res["demo"])
+    for extra in os.listdir(dd):
+        if extra.endswith(".py") and not extra.startswith(("demo_A", "demo_B")):
+            shutil.copy(os.path.join(dd, extra), os.path.join(d, extra))
     caught = {c: {"caught": v["rc"] == 1, "signatures": v["signatures"][:3], "wall_s": v["wall"]}
               for c, v in res.get("checks", {}).items()}
     meta = {
@@ -43,6 +54,7 @@ def main():
             "how": "tools/eval_seed.py in a scratch worktree of /repo (never /repo itself)",
         },
         "checks": caught,
+        "history": HISTORY.get(sid, "detected by the registered check on the first run"),
         "detected": any(v["caught"] for v in caught.values()),
     }
     json.dump(meta, open(os.path.join(d, "meta.json"), "w"), indent=1)
